@@ -4,7 +4,7 @@ is a decision tree; for each leaf the must-facts give the sets A (comparisons r 
 succeeded) and B (failed); with T strictly decreasing (checked on the initialiser data) the leaf
 returning k is right iff max A = k and (min B = k + 1, or B is empty and k = 29); the leaves must
 cover 0..=29 exactly once.  N table sanity (ratio of consecutive entries)."""
-from sym import Engine, show
+from sym import Engine, show, walk
 from rules.common import cmp_facts, cval, run_fn, param
 
 TABLE = "SMALLER_EDGE2OPEDGE_DIST"
@@ -36,6 +36,37 @@ def depth0_bound(ctx, crate, clause="depth0-bound-siblings"):
     ctx.report(clause, "largest_center_to_vertex_distance*:depth0", ok,
                "all three siblings use %r = pi/2 - asin(2/3) for base cells" % want if ok else "the siblings disagree or differ from pi/2 - asin(2/3) = %r: %s" % (want, vals),
                at=b.span if b else None, kind="N", sample={"depth0_values": vals, "expected": want})
+
+
+def npc_siblings(ctx, crate, clause="npc-bound-siblings"):
+    """the scalar `_with_radius` helper and the multi-depth helper compute the polar-cap bound with
+    the same expression of (lon, radius, slope, intercept) — instance confirmed by reading; the
+    multi-depth copy is the one the cone recursion uses, the scalar one the small-cone branch"""
+    fa = "largest_c2v_dist_in_npc_with_radius"; fb = "largest_center_to_vertex_distances_with_radius"
+    ba, bb = ctx.anchor(crate, fa, clause), ctx.anchor(crate, fb, clause)
+    if ba is None or bb is None: return
+    from rules.common import strip_generics
+    ea = Engine(crate); ra = ea.run(fa); ctx.functions |= ea.visited_fns
+    slope = crate.field_index("ConstantsC2V", "slope_npc"); inter = crate.field_index("ConstantsC2V", "intercept_npc")
+    def norm(t, csts):
+        """rename the constants object to a common symbol"""
+        if t == csts: return ('sym', ('csts',))
+        if isinstance(t, tuple): return tuple(norm(x, csts) if isinstance(x, tuple) else x for x in t)
+        return t
+    ta = norm(ra.ret, ('deref', param("csts"))) if ra.returns else None
+    eb = Engine(crate, opaque={"get_or_create"}); eb.run(fb); ctx.functions |= eb.visited_fns
+    pushes = [ev for ev in eb.events.values() if ev.callee and strip_generics(ev.callee).endswith("Vec::push") and len(ev.site) == 2]
+    goc = {ev.ret for ev in eb.events.values() if ev.callee == "get_or_create"}
+    cand = []
+    for p in pushes:
+        v = p.args[1]
+        cs = [x for x in walk(v) if x[0] == 'deref' and x[1] in goc]
+        if cs and any(x[0] == 'fld' and x[2] == slope for x in walk(v)):
+            cand.append(norm(v, cs[0]))
+    ok = ta is not None and len(cand) == 1 and cand[0] == ta
+    ctx.report(clause, "npc-bound:scalar==multi-depth", ok,
+               "both = slope_npc * min(|pi/4 - lon %% pi/2| + radius, pi/4) + intercept_npc" if ok else
+               "the polar-cap bound of largest_c2v_dist_in_npc_with_radius (%s) differs from the one pushed by the multi-depth helper (%s)" % (show(ta)[:140] if ta else None, [show(c)[:140] for c in cand]), at=ba.span, kind="N")
 
 
 def profile_agreement(ctx, clause="both-profiles"):
@@ -80,6 +111,13 @@ def run(ctx):
                sample={"table_head": T[:3], "table_tail": T[-2:]})
     ratios = [T[i] / T[i + 1] for i in range(len(T) - 1)]
     ctx.report("table", "table:ratio", all(1.9 < r < 2.3 for r in ratios), "ratio of consecutive limits in [%.4f, %.4f] (cell size halves per depth)" % (min(ratios), max(ratios)), at=s["span"], kind="N")
+    # the limit scales as 1/nside with a correction that itself halves with the depth:
+    # T[k]/T[k+1] = 2 + e_k, 0 < e_k, e_{k+1} <= 0.6 e_k + 1e-7 (1e-7: the table's own noise).
+    # A mistyped entry shows up as a break of that pattern (sensitivity ~ e_k, i.e. 5e-5 at depth 11).
+    ex = [r - 2.0 for r in ratios]
+    breaks = [k for k in range(len(ex)) if not (ex[k] > -1e-7) or (k > 0 and not (ex[k] <= 0.6 * ex[k - 1] + 1e-7))]
+    ctx.report("table", "table:second-order-pattern", not breaks, "T[k]/T[k+1] - 2 is positive and at least halves-ish at each depth (k = 0..28)" if not breaks else
+               "the pattern breaks at depth(s) %s: T[%d]/T[%d] = %.9f — an entry near there is inconsistent with its neighbours" % (breaks, breaks[0], breaks[0] + 1, ratios[breaks[0]]), at=s["span"], kind="N")
     idx_of = {v: i for i, v in enumerate(T)}
     b = ctx.anchor(crate, FN, "decision-tree")
     if b is None: return
@@ -127,5 +165,6 @@ def run(ctx):
         ok2 = any(op == "lt" and a == param(pname) and cval(c) == T[0] and pos for op, a, c, pos in entry)
         ctx.report("refusal", FN + ":asserts-r<T[0]", ok2, "every normal return of best_starting_depth has r < T[0] = %r as a succeeded comparison (NaN and larger radii panic)" % T[0], at=b.span)
     depth0_bound(ctx, crate)
+    npc_siblings(ctx, crate)
     profile_agreement(ctx)
     ctx.not_decided("that the tabulated limits and the linear/parabolic envelopes of ConstantsC2V are upper bounds of real cell sizes (spherical trigonometry); largest_center_to_vertex_distance*")
